@@ -218,6 +218,11 @@ def lookup(unit, block, qname, key, depth=0, fn=None, env=None, raw_result=False
         ks = A.kids(n)
         if k in ("ExprWithCleanups", "MaterializeTemporaryExpr", "CXXBindTemporaryExpr") and ks:
             return ev.ev(ks[0])
+        if k in ("CXXConstructExpr", "CXXTemporaryObjectExpr") and "MetaContainer" in (A.qtype(n) or "") and len(ks) == 1:
+            v_ = ev.ev(ks[0])
+            if v_ == ("this",):
+                return v_                          # the container handed on by value
+            raise FD.Unknown("container constructed from %r" % (v_,), n)
         if k in ("CXXConstructExpr", "CXXTemporaryObjectExpr", "CXXFunctionalCastExpr") and "MetaIterator" in (A.qtype(n) or ""):
             if len(ks) == 1:
                 v = ev.ev(ks[-1])
